@@ -766,7 +766,7 @@ impl Prop for ArrayModel {
         "one case = an operation sequence (<= 40 ops: literal, alias, clone, filled, get, set, push, pop, len, is_empty, swap, remove, clear, find, contains, for-iteration, ==, and for nested arrays inner push/pop/set and sharing an inner array) over 1-3 variables of array<int|string|array<int>|void>; every operation prints its result and all arrays; the whole output and the way the program ends are compared with a Vec model; non-trivial = the sequence reaches an empty array by pop/remove/clear or stops with an out-of-range index / pop on empty, and mutates an array reachable through two names; distinct by the sequence"
     }
     fn n_cases(&self, tier: Tier) -> u32 {
-        tier.pick(3000, 30000)
+        tier.pick(4500, 45000)
     }
     fn strategy(&self, _tier: Tier, _f: &Findings) -> BoxedStrategy<Self::Case> {
         proptest::collection::vec(case_strategy(0), 1..=24).boxed()
